@@ -112,7 +112,7 @@ def generate(rng, tier):
             w, v = _spec(rng)
             v2 = [dyadic(rng, 0, 16, 3) for _ in w]
             out.append({'kind': 'integrate', 'wave': w, 'value': v, 'value2': v2, 'ca': dyadic(rng, -4, 4, 2), 'cb': dyadic(rng, -4, 4, 2),
-                        'a': FR[int(rng.integers(0, len(FR)))], 'b': FR[int(rng.integers(0, len(FR)))], 'split': int(rng.integers(0, len(w))),
+                        **(lambda x, y, sw: {'a': max(x, y) if sw else min(x, y), 'b': min(x, y) if sw else max(x, y)})(FR[int(rng.integers(0, len(FR)))], FR[int(rng.integers(0, len(FR)))], rng.integers(0, 8) == 0), 'split': int(rng.integers(0, len(w))),
                         'lin': [dyadic(rng, -2, 2, 3), dyadic(rng, 0, 8, 3)]})
         else:
             w, v = _spec(rng, n=int(rng.integers(3, 11)))
@@ -617,6 +617,12 @@ def oracle(c, io):
         return None
     if k == 'integrate':
         w, v = c['wave'], c['value']
+        # first: the definition — trapezoid over exactly the samples inside the closed range [a, b] (bounds beyond the data add nothing)
+        sel0 = [(x, y) for x, y in zip(w, v) if io['a'] <= x <= io['b']]
+        ref0 = sum((x1 - x0) * (y0 + y1) / 2 for (x0, y0), (x1, y1) in zip(sel0, sel0[1:]))
+        if not close(io['I'], ref0, 1e-12, 1e-12):
+            where = ('; start is below the first sample' if io['a'] < w[0] else '') + ('; end is above the last sample' if io['b'] > w[-1] else '')
+            return f"integrate({io['a']},{io['b']}) on data spanning [{w[0]}, {w[-1]}] = {io['I']!r}, the exact integral of the piecewise-linear data over the samples inside = {ref0!r}{where}"
         if not close(io['Icomb'], c['ca'] * io['I'] + c['cb'] * io['I2'], 1e-12, 1e-9): return f"integration not linear: ∫(a f + b g) = {io['Icomb']!r}, a∫f + b∫g = {c['ca'] * io['I'] + c['cb'] * io['I2']!r}"
         if not close(io['left'] + io['right'], io['full'], 1e-12, 1e-12): return f"not additive at the sample {w[c['split']]}: {io['left']!r} + {io['right']!r} != {io['full']!r}"
         a_, b_ = c['lin']
